@@ -412,8 +412,10 @@ def d_data_get_summary(f, s, R, db):
         return 'summary: <Data>::get(i) requires i < rows(); its only callers are the __getitem__ methods, checked by R18.1'
     if s['kind'] == 'call:generic-index' and f.path.endswith('StripedScores::__getitem__'):
         rels = G.relations(f, R, s['block'])
-        idx = norm(R.operand(s['term']['args'][1]))
-        if G.holds(rels, 'lt', lambda e: norm(e) == idx, lambda e: common.is_call_to(e, 'StripedScores::max_index')) and G.holds(rels, 'ge', lambda e: norm(e) == idx, lambda e: norm(e) == ('k', 0)):
+        idx = norm(R.at(s['block']).operand(s['term']['args'][1]))
+        ci = X.canon(idx)
+        same = lambda e: X.canon(norm(e)) == ci
+        if G.holds(rels, 'lt', same, lambda e: common.is_call_to(e, 'StripedScores::max_index')) and G.holds(rels, 'ge', same, lambda e: norm(e) == ('k', 0)):
             return 'guarded: 0 <= i < max_index <= rows*columns dominates scores[i]'
     return None
 
@@ -698,7 +700,45 @@ def r179(db, ctx):
         ctx.ok('R17.9', g, 'fh.read(buf.len()) -> b; refused iff b.len() > buf.len(); buf[..b.len()] = b; Ok(b.len())', ['exact guard', 'copy length = answer length'])
 
 
+def r1710(db, ctx):
+    ctx.rule('R17.10', 'a Python float is a double: no function of the binding receives a user number as f32 and then widens it to f64 for the core '
+                       '(the core would be asked about the rounded value, not the one the user passed)')
+    n = 0
+    bad = 0
+    for f in sorted(db.fns.values(), key=lambda f_: f_.path):
+        if f.crate != 'lightmotif_py' or f.promoted_of or f.kind == 'Closure':
+            continue
+        nargs = f.raw.get('arg_count') or 0
+        f32_params = [i for i in range(1, nargs + 1) if f.local_ty(i) == 'f32']
+        if not f32_params:
+            continue
+        n += 1
+        R = X.Rec(f)
+        bodies = [(f, R)] + [(g, X.Rec(g)) for g in db.closures_of(f)]
+        for g, Rg in bodies:
+            for bi, t in g.calls():
+                full = t.get('callee_full') or ''
+                if full.startswith(('<f32 as core::convert::Into<f64>>::into', '<f64 as core::convert::From<f32>>::from')) and t['args']:
+                    a_ = norm(Rg.at(bi).operand(t['args'][0]))
+                    if g is f and a_[0] == 'p' and a_[1] in f32_params:
+                        bad += 1
+                        ctx.fail('R17.10', f, f'parameter `{f.local_name(a_[1]) or a_[1]}`', f'the parameter `{f.local_name(a_[1]) or a_[1]}` is received as f32 and widened to f64: '
+                                 'the value Python passed (a double) has been rounded to single precision before the core sees it', span=t['span'])
+            for bi, blk in enumerate(g.blocks):
+                for st in blk['stmts']:
+                    if st['k'] == 'assign' and st['rv']['k'] == 'cast' and st['rv'].get('ty') == 'f64':
+                        a_ = norm(Rg.at(bi).operand(st['rv']['a'])) if 'a' in st['rv'] else None
+                        if g is f and a_ is not None and a_[0] == 'p' and a_[1] in f32_params:
+                            bad += 1
+                            ctx.fail('R17.10', f, f'parameter `{f.local_name(a_[1]) or a_[1]}`', f'the parameter `{f.local_name(a_[1]) or a_[1]}` is received as f32 and cast to f64: '
+                                     'the value Python passed (a double) has been rounded to single precision before the core sees it', span=st.get('span'))
+    if not bad:
+        ctx.ok('R17.10', 'lightmotif_py', f'{n} functions of the binding take f32 parameters; none widens one to f64', ['positive control: seed C17-6 / mutant c17-pvalue-f32'])
+    ctx.floor('R17.10', n, 3, 'binding functions with f32 parameters')
+
+
 def run(db, ctx):
+    r1710(db, ctx)
     r179(db, ctx)
     r171(db, ctx)
     r172(db, ctx)
